@@ -339,3 +339,8 @@ CHECKS["C09"]["rule"] += "; plus every one of the 256 header bytes in map-key po
 CHECKS["C05"]["batches"].append(
     {"family": "hist", "mode": "limitfault", "cfgs": {"quick": ["C", "K"], "thorough": ["B", "C", "F", "J", "K"]},
      "runs": {"quick": 24, "thorough": 1200}, "chunks": {"quick": 4, "thorough": 16}})
+
+# a capacity limit met while a deserializer is building a string is a failure too: nothing may stay behind after clear()
+CHECKS["C05"]["batches"].append(
+    {"family": "xfer", "mode": "limits", "cfgs": {"quick": ["A", "B"], "thorough": ["A", "B", "C", "D", "F", "I"]},
+     "runs": {"quick": 60, "thorough": 600}})
